@@ -16,7 +16,7 @@ from ..datasets import Dataset, Workdir, dataset_specs, place_pressures, write_i
 ID = "C13"
 SHARDS = {"quick": 16, "thorough": 16}
 RULE = ("data sets as C05 (1-5 q-points, 1-3 atoms; a second stream with 257-770 q-points) and one drawn re-presentation kind: q-points 2..nq permuted with their "
-        "weights, modes permuted (any at non-Gamma points, modes >= 4 at Gamma) at every volume, weights times a positive factor, "
+        "weights, modes permuted (any at non-Gamma points, modes >= 4 at Gamma) at every volume, weights times a positive factor (2 .. 1e12, 1e-9 .. 0.5, or the one that makes them sum to 1 +- 1e-6..9e-4), "
         "static columns permuted/upper-cased/prefixed, static rows (and lattice rows) permuted, phonon volume blocks reversed or "
         "shuffled; non-trivial = a non-identity permutation with nq >= 3 or np >= 6, or a factor that is not a power of two, or any "
         "column/row/volume re-ordering; distinct by (spec, kind, permutation seed)")
@@ -39,7 +39,7 @@ def cases(draw, many_q=False):
         s["nt"] = min(s["nt"], 2)
         s["ntv"] = min(s["ntv"], 21)
     s["pseed"] = draw(st.integers(0, 10 ** 6))
-    s["factor"] = draw(st.sampled_from([2.0, 0.5, 3.0, 0.1, 7.25, 1e-3, 123.456, 1e-9, 3e-13, 1e12]))
+    s["factor"] = draw(st.sampled_from([2.0, 0.5, 3.0, 0.1, 7.25, 1e-3, 123.456, 1e-9, 3e-13, 1e12, "sum-near-1", "sum-near-1"]))
     s["vorder"] = draw(st.sampled_from(["reversed", "shuffled"]))
     s["colstyle"] = draw(st.sampled_from(["permute", "upper", "prefix", "all"]))
     return s
@@ -65,7 +65,11 @@ def presentations(s, ds):
         k01["mode_perm"] = mp
         ident = all(m == list(range(ds.npm)) for m in mp)
     elif kind == "weight-scale":
-        k01["weights"] = ds.weights * s["factor"]
+        f = s["factor"]
+        if f == "sum-near-1":
+            # weights normalised only to their printed precision: the sum is 1 +- 1e-6..9e-4
+            f = (1.0 + float(rng.choice([-1.0, 1.0])) * 10.0 ** rng.uniform(-6, -3.05)) / float(np.sum(ds.weights))
+        k01["weights"] = ds.weights * f
     elif kind == "static-columns":
         n = len(ds.static_keys)
         perm = list(rng.permutation(n)) if s["colstyle"] in ("permute", "all") else list(range(n))
@@ -220,7 +224,7 @@ def sub_examples(ctx):
         except FileNotFoundError:
             ctx.stats.skip("example-missing-" + name)
             continue
-        s = {"example": name, "kind": kind, "pseed": pseed + ctx.base_seed, "factor": 7.25, "vorder": "reversed" if pseed % 2 else "shuffled",
+        s = {"example": name, "kind": kind, "pseed": pseed + ctx.base_seed, "factor": 7.25 if pseed % 2 else "sum-near-1", "vorder": "reversed" if pseed % 2 else "shuffled",
              "colstyle": "all"}
         info = oracle(ctx, s, ds, ds.qha_settings(), s)
         ctx.case(s, True, classes=["example-" + name, "kind-" + kind])
